@@ -378,3 +378,8 @@ if __name__ == "__main__":
     except subprocess.TimeoutExpired as e:
         print("TIMEOUT: %s" % e)
         sys.exit(2)
+    except Exception:      # a fault of the harness itself is neither "held" nor "violated"
+        import traceback
+        traceback.print_exc()
+        print("HARNESS-ERROR: the check did not reach a verdict (exit 2)")
+        sys.exit(2)
